@@ -1,25 +1,26 @@
 #!/bin/bash
-# Regenerates /verif/mc/go.mod + go.sum from /repo/go.mod so the dependency
+# Regenerates /verif/mc/go.mod + go.sum from "$REPO"/go.mod so the dependency
 # list always matches the tree under test.
 set -e
 cd "$(dirname "$0")/../mc"
+REPO="${VERIF_REPO:-/repo}"
 {
   echo "module verifmc"
   echo
-  grep -E '^go ' /repo/go.mod
+  grep -E '^go ' "$REPO"/go.mod
   echo
   echo "require github.com/yorkie-team/yorkie v0.0.0"
   echo "require github.com/anishathalye/porcupine v1.3.0"
   echo
-  echo "replace github.com/yorkie-team/yorkie => /repo"
+  echo "replace github.com/yorkie-team/yorkie => $REPO"
   echo
-  awk '/^require \(/{p=1} p{print} /^\)/{p=0}' /repo/go.mod
+  awk '/^require \(/{p=1} p{print} /^\)/{p=0}' "$REPO"/go.mod
   echo
-  awk '/^replace \(/{p=1} p{print} /^\)/{p=0}' /repo/go.mod
-  grep -E '^replace [^(]' /repo/go.mod || true
+  awk '/^replace \(/{p=1} p{print} /^\)/{p=0}' "$REPO"/go.mod
+  grep -E '^replace [^(]' "$REPO"/go.mod || true
 } > go.mod.new
 if ! cmp -s go.mod.new go.mod; then mv go.mod.new go.mod; else rm go.mod.new; fi
-cat /repo/go.sum > go.sum.new
+cat "$REPO"/go.sum > go.sum.new
 cat >> go.sum.new <<'SUM'
 github.com/anishathalye/porcupine v1.3.0 h1:yo51Niv8Tg0tAAn5XOG2UVvJXUregK4WFuLrBRoowP8=
 github.com/anishathalye/porcupine v1.3.0/go.mod h1:WM0SsFjWNl2Y4BqHr/E/ll2yY1GY1jqn+W7Z/84Zoog=
